@@ -33,6 +33,9 @@ def _pow2_exp(n):
         return n.right
     if isinstance(n, ast.BinOp) and isinstance(n.op, ast.Pow) and _is_int(n.left, 2):
         return n.right
+    c = const_int(n)
+    if c is not None and c >= 2 and c & (c - 1) == 0:
+        return ast.Constant(value=c.bit_length() - 1)       # a literal power of two
     return None
 
 
@@ -175,6 +178,9 @@ class Canon:
         m = self._mask_form(e)
         if m is not None:
             return m
+        c = const_int(e)
+        if c is not None and c >= 3 and (c + 1) & c == 0:
+            return ("mask", ("int", c.bit_length())), False        # a literal 2**k - 1 used as a bit mask (0xff, ..)
         return self.term(e), False
 
     # ------------------------------------------------------------------ arithmetic / structural terms
